@@ -4,6 +4,7 @@
 From JV Require Import Sem Gen Spec SpecX.
 From JV.Hand Require Import Order.
 From JV.Proofs Require Import SpecFacts Cal Core CoreOrder SpecSets AtJdn.
+Require JV.Proofs.Glue_C11_labels.
 Open Scope Z_scope.
 
 Theorem C11_labels_monotone : forall c j j', ValidCal c -> in_i32 j -> in_i32 j' -> j < j' ->
@@ -17,11 +18,7 @@ Print Assumptions C11_spec_labels_monotone.
 Theorem C11_year_ordinal_monotone : forall c j j', ValidCal c -> in_i32 j -> in_i32 j' -> j < j' ->
   exists d d', Calendar_at_jdn (cal_of c) j = Ret d /\ Calendar_at_jdn (cal_of c) j' = Ret d' /\
     (Date_f_year d < Date_f_year d' \/ (Date_f_year d = Date_f_year d' /\ Date_f_ordinal d < Date_f_ordinal d')).
-Proof.
-  intros c j j' V H H' L. exists (date_of c j), (date_of c j'). split; [apply at_jdn_ok; assumption|]. split; [apply at_jdn_ok; assumption|].
-  destruct (SuccPred.date_of_fields c j) as (_ & Fy & Fo & _). destruct (SuccPred.date_of_fields c j') as (_ & Fy' & Fo' & _).
-  rewrite Fy, Fo, Fy', Fo'. apply year_ordinal_monotone; assumption.
-Qed.
+Proof. exact JV.Proofs.Glue_C11_labels.C11_year_ordinal_monotone_lemma. Qed.
 Print Assumptions C11_year_ordinal_monotone.
 
 (* calendars that compare Equal are the same value, private gap record included *)
